@@ -23,8 +23,8 @@ THEOREMS = [
     "Ebv.Gen.evalBV_eq_evalZ", "Ebv.Gen.elab_evalZ",
     "Ebv.C01.assign_correct_reg", "Ebv.C01.assign_correct_mem", "Ebv.C01.stmts_correct", "Ebv.C01.C01_core",
     "Ebv.C01.C01_partial", "Ebv.C01.load_shift_is_setitem", "Ebv.C01.load_shift_in_range",
-    "Ebv.C01.C01_full_refuted", "Ebv.C01.unary_in_place_refuted", "Ebv.C01.unary_32_in_64_refuted",
-    "Ebv.C01.narrow_reg_in_64_refuted", "Ebv.C01.before_fix_sum_minus", "Ebv.C01.abs_32_refuted",
+    "Ebv.C01.C01_full_refuted", "Ebv.C01.before_fix_unary_in_place", "Ebv.C01.before_fix_unary_32_in_64",
+    "Ebv.C01.narrow_reg_in_64_refuted", "Ebv.C01.before_fix_sum_minus", "Ebv.C01.before_fix_abs_32",
     "Ebv.C01.divmod_negative_refuted", "Ebv.C01.rshift_negative_refuted",
 ]
 TRUSTED = ["hand-written model Ebv.Gen of the expression code generator (ebpfcat/ebpf.py: operator protocol, calculate/load/"
@@ -57,7 +57,7 @@ GLOBAL_BASE = interp.MAP_BASE
 
 # defect classes of the unchanged tree (program-level predicates, computed on the real object tree here and on the
 # model's `Expr` in Lean; the two are compared as part of the correspondence), in order of precedence
-PROGRAM_CLASSES = ["unary-in-place", "unary-32-in-64", "narrow-reg-in-64", "abs-32"]
+PROGRAM_CLASSES = ["narrow-reg-in-64"]
 # classes that additionally look at the inputs (evaluated with the reference semantics)
 INPUT_CLASSES = ["divmod-negative", "rshift-negative-logical"]
 
@@ -70,23 +70,15 @@ def ret_long(E, v, L):
     if isinstance(v, E.Constant):
         return not (-0x80000000 <= v.value < 0x100000000)
     if isinstance(v, E.Unary):
-        return ret_long(E, v.arg, L)
+        return bool(L) or ret_long(E, v.arg, L)        # `long = long or arg_long`
     if isinstance(v, E.Memory):
         return v.fmt in "Qq"
     return L
 
 
 def reg_chain(E, v):
-    """v is a register, possibly under unary operators (calculate hands the register itself out when not forced)"""
-    while isinstance(v, E.Unary):
-        v = v.arg
+    """v is a register (calculate hands the register itself out when not forced; unary operators work on a copy)"""
     return isinstance(v, E.Register)
-
-
-def long_reg_chain(E, v):
-    while isinstance(v, E.Unary):
-        v = v.arg
-    return isinstance(v, E.Register) and v.long
 
 
 TEMP = -1    # "a fresh temporary": differs from every register the expression mentions
@@ -105,13 +97,8 @@ def tree_classes(E, v, L, forced, dst, out):
         if not v.right.small_constant:
             tree_classes(E, v.right, L, False, None, out)
     elif isinstance(v, E.Unary):
-        if not forced and reg_chain(E, v.arg):
-            out.add("unary-in-place")
-        if isinstance(v, E.Negate) and L and not ret_long(E, v.arg, L):
-            out.add("unary-32-in-64")
-        if isinstance(v, E.Absolute) and not L and not long_reg_chain(E, v.arg):
-            out.add("abs-32")
-        tree_classes(E, v.arg, L, forced, dst, out)
+        # the operand is forced into the offered destination, else into a fresh temporary
+        tree_classes(E, v.arg, L, True, TEMP if dst is None else dst, out)
     elif isinstance(v, E.Memory):
         if not isinstance(v.address, E.Sum):
             tree_classes(E, v.address, True, False, None, out)
@@ -458,7 +445,9 @@ PROVED = [
     "shared object equals a copy of its tree)",
 ]
 CORRESPONDED_NOT_PROVED = [
-    "abs (Absolute: forward JSGE + NEG64) -- modelled + corresponded + oracle; outside Expr.frag",
+    "abs (Absolute: forward JSGE + NEG at the width of the computation, JMP32/NEG32 after a 32-bit one) -- modelled + corresponded + "
+    "oracle at full strength (no class excuse); outside Expr.frag.  Proved separately (Lemmas/AbsSeg.lean, audited by C03): the two "
+    "instructions as a closed segment (abs_segment) and abs on top of an operand of the fragment (abs_top_correct)",
     "computed addresses mB[...]..mq[...] with a non-Sum address (Expression.calculate/Memory.get_address) -- modelled + corresponded; "
     "not executed by the oracle; outside Expr.frag (a Sum address, e.g. mB[r3 + 8], IS inside calc_correct)",
     "// % >> : calc_correct proves the machine-level value (evalBV with the kernel's unsigned DIV/MOD, RSH/ARSH); the integer-level "
@@ -479,10 +468,14 @@ LEVEL_NOTE = ("trusted: Lean kernel + propext/Classical.choice/Quot.sound; Gen <
               "ISA model validated, not verified. Proved by induction: constants, register views, all Binary operators at machine level, "
               "Negate, variable reads/writes of the 8 formats, both store paths, __setitem__; integer level for + - * | & ^ << neg. "
               "Corresponded + oracle only (NOT proved): abs, computed non-Sum addresses, integer-level // % >>, width None. Known defect "
-              "classes of the unchanged tree (each refuted in Lean on a witness): unary-in-place, unary-32-in-64, narrow-reg-in-64, "
-              "abs-32, divmod-negative, rshift-negative-logical. Repaired and now inside C01_partial at full strength: Sum - expression "
+              "classes of the unchanged tree (each refuted in Lean on a witness): narrow-reg-in-64, "
+              "divmod-negative, rshift-negative-logical. Repaired and now inside C01_partial at full strength: Sum - expression "
               "(was class sum-minus) and Sum +- int (returned None and changed the shared Constant); regression witness "
-              "before_fix_sum_minus. Also seen, outside the property: a register nobody owns is accepted while it is handed out as a "
+              "before_fix_sum_minus; unary operators on a register that is not forced into a destination (was class unary-in-place: "
+              "the operator changed the user's register; it works on a copy now; calc_correct without the exclusion, regression witness "
+              "before_fix_unary_in_place); unary minus / abs on a 32-bit operand inside a 64-bit computation (was class unary-32-in-64: "
+              "executed in 32 bits; now `long or arg_long`; regression witness before_fix_unary_32_in_64). Repaired, checked by correspondence and the oracle without excuse: abs in a 32-bit computation "
+              "(was class abs-32; regression witness before_fix_abs_32). Also seen, outside the property: a register nobody owns is accepted while it is handed out as a "
               "temporary.")
 TECHNIQUE = "Lean 4 structural induction over expression trees (compiler correctness) + exact opcode-list correspondence"
 DESIGN_REF = "§4 C01"
